@@ -390,3 +390,153 @@ func AddErrors(r *rng.R, g *gram.Grammar) {
 		g.Rules[ri].Prods = append(g.Rules[ri].Prods, p)
 	}
 }
+
+// ---------------------------------------------------------------------------
+// Operator grammars (C04, C05)
+// ---------------------------------------------------------------------------
+
+type OpLevel struct {
+	Right bool
+	Ops   []int // token indices
+}
+
+// ExprSpec describes an operator table and the grammar built from it.
+type ExprSpec struct {
+	G        *gram.Grammar
+	Levels   []OpLevel // Levels[i] has precedence i+1
+	Num      int       // token index of the atom
+	LP, RP   int       // token indices, -1 when there are no parentheses
+	Unary    int       // token index of a prefix operator (-1 none)
+	UnaryLvl int       // its precedence
+	Call     bool      // primary rule p = p LP2 RP2 | NUM
+	CallLP, CallRP int
+	ExprRule int
+	// Twists that must NOT be settled by precedence (C04):
+	Twist string // "", "unqualified-op", "cross-rule", "reduce-reduce", "mixed-assoc-level", "mixed-shift-levels"
+}
+
+var opTokNames = []string{"PLUS", "MINUS", "STAR", "SLASH", "POW", "EQ", "LT", "AND"}
+var opTokLits = []string{"+", "-", "*", "/", "^", "=", "<", "&"}
+
+// ExprGrammar draws an operator grammar. twist selects a deliberately
+// unresolvable variant ("" for a clean table).
+func ExprGrammar(r *rng.R, twist string) *ExprSpec {
+	es := &ExprSpec{G: &gram.Grammar{}, LP: -1, RP: -1, Unary: -1, Twist: twist}
+	g := es.G
+	addTok := func(name, lit string) int {
+		g.Tokens = append(g.Tokens, gram.Token{Name: name, Lit: lit})
+		return len(g.Tokens) - 1
+	}
+	es.Num = addTok("NUM", "0")
+	nLevels := r.Range(1, 3)
+	perm := r.Perm(len(opTokNames))
+	k := 0
+	for l := 0; l < nLevels; l++ {
+		lv := OpLevel{Right: r.Chance(1, 3)}
+		n := r.Range(1, 2)
+		for i := 0; i < n && k < len(perm); i++ {
+			lv.Ops = append(lv.Ops, addTok(opTokNames[perm[k]], opTokLits[perm[k]]))
+			k++
+		}
+		es.Levels = append(es.Levels, lv)
+	}
+	if r.Chance(2, 3) {
+		es.LP, es.RP = addTok("LP", "("), addTok("RP", ")")
+	}
+	tok := func(i int) gram.Term { return gram.Term{Ref: gram.Ref{Kind: gram.KTok, Idx: i}, AsLit: r.Chance(1, 3)} }
+	e := gram.Ref{Kind: gram.KRule, Idx: 0}
+	g.Rules = append(g.Rules, gram.Rule{Name: "expr"})
+	es.ExprRule = 0
+	var prods []gram.Prod
+	for li, lv := range es.Levels {
+		for oi, op := range lv.Ops {
+			p := gram.Prod{Terms: []gram.Term{{Ref: e}, tok(op), {Ref: e}}, Qual: &gram.Qual{Right: lv.Right, N: li + 1}}
+			if twist == "unqualified-op" && li == 0 && oi == 0 {
+				p.Qual = nil
+			}
+			if twist == "mixed-assoc-level" && li == 0 && oi == 0 && len(lv.Ops) > 1 {
+				p.Qual.Right = !lv.Right
+			}
+			prods = append(prods, p)
+		}
+	}
+	if twist == "" && r.Chance(1, 4) {
+		es.Unary = addTok("NEG", "~")
+		es.UnaryLvl = r.Range(1, nLevels+1)
+		prods = append(prods, gram.Prod{Terms: []gram.Term{tok(es.Unary), {Ref: e}}, Qual: &gram.Qual{Right: r.Chance(1, 2), N: es.UnaryLvl}})
+	}
+	if es.LP >= 0 {
+		prods = append(prods, gram.Prod{Terms: []gram.Term{tok(es.LP), {Ref: e}, tok(es.RP)}})
+	}
+	if twist == "" && r.Chance(1, 3) {
+		// call syntax lives in a lower rule so that it stays unqualified
+		es.Call = true
+		es.CallLP, es.CallRP = addTok("LB", "["), addTok("RB", "]")
+		g.Rules = append(g.Rules, gram.Rule{Name: "prim", Prods: []gram.Prod{
+			{Terms: []gram.Term{{Ref: gram.Ref{Kind: gram.KRule, Idx: 1}}, tok(es.CallLP), tok(es.CallRP)}},
+			{Terms: []gram.Term{tok(es.Num)}},
+		}})
+		prods = append(prods, gram.Prod{Terms: []gram.Term{{Ref: gram.Ref{Kind: gram.KRule, Idx: 1}}}})
+	} else {
+		prods = append(prods, gram.Prod{Terms: []gram.Term{tok(es.Num)}})
+	}
+	switch twist {
+	case "cross-rule":
+		// the highest level moves to another rule: conflicts now span rules
+		nr := len(g.Rules)
+		op := addTok("XOP", "%")
+		g.Rules = append(g.Rules, gram.Rule{Name: "other", Prods: []gram.Prod{
+			{Terms: []gram.Term{{Ref: e}, tok(op), {Ref: e}}, Qual: &gram.Qual{N: nLevels + 1}},
+		}})
+		prods = append(prods, gram.Prod{Terms: []gram.Term{{Ref: gram.Ref{Kind: gram.KRule, Idx: nr}}}})
+	case "reduce-reduce":
+		// two qualified alternatives that derive the same token
+		x := addTok("XX", "x")
+		prods = append(prods,
+			gram.Prod{Terms: []gram.Term{tok(x)}, Qual: &gram.Qual{N: 1}},
+			gram.Prod{Terms: []gram.Term{tok(x)}, Qual: &gram.Qual{N: 2}})
+	case "mixed-shift-levels":
+		// expr OP expr with the same operator at two levels: the productions
+		// wanting the shift carry different levels
+		if len(es.Levels) > 0 {
+			op := es.Levels[0].Ops[0]
+			prods = append(prods, gram.Prod{Terms: []gram.Term{{Ref: e}, tok(op), tok(op), {Ref: e}}, Qual: &gram.Qual{N: len(es.Levels) + 1}})
+		}
+	}
+	g.Rules[0].Prods = prods
+	g.Start = 0
+	if r.Chance(1, 3) {
+		// wrap: s = expr (SEMI expr)* style, to put the table below the start
+		semi := addTok("SEMI", ";")
+		g.Rules = append(g.Rules, gram.Rule{Name: "prog", Prods: []gram.Prod{
+			{Terms: []gram.Term{{Ref: e, Sugar: gram.List, Sep: gram.Ref{Kind: gram.KTok, Idx: semi}}}},
+		}})
+		g.Start = len(g.Rules) - 1
+	}
+	return es
+}
+
+// NotLALRGrammar grafts the classic LR(1)-but-not-LALR(1) pattern
+// (s = A x D | B y D | A y E | B x E; x = C; y = C) into a small grammar.
+func NotLALRGrammar(r *rng.R) *gram.Grammar {
+	g := &gram.Grammar{}
+	for i := 0; i < 6; i++ {
+		g.Tokens = append(g.Tokens, gram.Token{Name: tokNames[i], Lit: string(rune('a' + i))})
+	}
+	t := func(i int) gram.Term { return gram.Term{Ref: gram.Ref{Kind: gram.KTok, Idx: i}} }
+	rl := func(i int) gram.Term { return gram.Term{Ref: gram.Ref{Kind: gram.KRule, Idx: i}} }
+	g.Rules = []gram.Rule{
+		{Name: "s", Prods: []gram.Prod{P(t(0), rl(1), t(3)), P(t(1), rl(2), t(3)), P(t(0), rl(2), t(4)), P(t(1), rl(1), t(4))}},
+		{Name: "x", Prods: []gram.Prod{P(t(2))}},
+		{Name: "y", Prods: []gram.Prod{P(t(2))}},
+	}
+	if r.Chance(1, 2) {
+		g.Rules[1].Prods = append(g.Rules[1].Prods, P(t(2), t(5)))
+	}
+	if r.Chance(1, 2) {
+		// wrap in a list
+		g.Rules = append(g.Rules, gram.Rule{Name: "top", Prods: []gram.Prod{P(TS(gram.Ref{Kind: gram.KRule, Idx: 0}, gram.Plus))}})
+		g.Start = 3
+	}
+	return g
+}
